@@ -22,6 +22,7 @@ def mk_sub_and_candidates(ex, prog, n):
     ex.assume(And(s.isnull('deleted_at'), s.isnull('max_delivery_attempts')))
     for i, d in enumerate(db.t['Delivery']):
         ex.assume(And(d.v['subscription_id'] == s.v['id'], d.v['message_id'] == db.t['Message'][i].v['id'], d.isnull('completed_at')))
+    db.snap0 = db.snapshot()
     return db, s
 
 
@@ -69,6 +70,76 @@ def budget_kernel(chk, prog):
             first = db.t['Message'][0].v['payload'].len
             ob.verify(ex, 'non-strict-always-delivers-something', Implies(Not(strict), len(res) >= 1), d_)
     chk.run('budget-kernel:applyResults', prog, harness, bounds={'candidates': '0..%d' % N, 'payload sizes': 'symbolic', 'limits': 'symbolic >= 1'}, setup=world.setup, max_paths=50000)
+
+
+def fetch_never_parks_on_candidates(chk, prog):
+    """no stall inside the fetch: when deliverable candidates exist the fetch action returns at once - also in strict byte mode when
+    none of them fits - so that the sender is back in its own select, where an ack that frees capacity wakes it (a fetch that waits
+    inside the action with the old budget would not see that wake)"""
+    def harness(ex, ob):
+        n = 1 + ex.choose(2)
+        db, s = mk_sub_and_candidates(ex, prog, n)
+        ex.assume(And(s.isnull('filter'), Not(s.v['ordered_delivery'])))
+        client = reldb.make_client(ex, db)
+        mm, mb = z3.Int('max_messages'), z3.Int('max_bytes')
+        ex.assume(z3.And(mm >= 1, mm < 2**31, mb >= 1, mb < 2**31))
+        strict = z3.Bool('strict')
+        p = ex.new_struct(A + 'GetSubscriptionMessagesParams', Name='', ID=ex.new_ptr(s.v['id']), MaxMessages=mm, MaxBytes=mb, MaxBytesStrict=strict, MaxWait=0)
+        act = ex.call_named(A + 'NewGetSubscriptionMessages', [p])
+        parked = []
+
+        def select(ex_, states, blocking, t):
+            zero = tuple([ex_.zero(x) for x in ex_.prog.types[t]['elems'][2:]])
+            if not blocking:
+                return (-1, False) + zero
+            parked.append(len(states))
+            raise Stop('parked')
+        ex.xp.select = select
+        err = None
+        try:
+            err = ex.call_named(G + 'ExecuteClient', [act, new_context(ex), client])
+        except Stop:
+            pass
+        nows = stdlib.clock(ex)['nows']
+        # at least one candidate is due and retained throughout the call
+        due = Or(*[And(d.exists, d.v['attempt_at'] <= nows[0], d.v['expires_at'] > nows[-1]) for d in db.snap0['Delivery']]) if nows else False
+        dsc = lambda m: {'candidates': n, 'strict': str(m.eval(strict, model_completion=True)), 'max_bytes': m.eval(mb, model_completion=True).as_long(),
+                         'sizes': [m.eval(zint(x.v['payload'].len), model_completion=True).as_long() for x in db.snap0['Message']]}
+        def rp(m, desc):
+            # the failure class on the real stream: byte limit 100, messages of 80 and 50 bytes; the first is sent, the second does not fit;
+            # an ack for the first frees the bytes - the second must then be sent promptly (real MessageStreamer.Go, scripted connection)
+            from gosym import replay
+            base = 2 * 10**18
+            rws = replay.rows_from_model(m, db.schema, {'Topic': db.snap0['Topic'], 'Subscription': db.snap0['Subscription'], 'Message': [], 'Delivery': []})
+            tid, sid = rws['Topic'][0]['id'], rws['Subscription'][0]['id']
+            for rw in rws['Subscription']:
+                rw.update(expires_at=str(base + 7200 * 10**9), push_endpoint=None, deleted_at=None, live=True, topic_id=tid, ordered_delivery=False, filter=None,
+                          max_delivery_attempts=None, dead_letter_topic_id=None, delivery_delay='0')
+            for rw in rws['Topic']:
+                rw.update(deleted_at=None, live=True)
+            rws['Message'], rws['Delivery'] = [], []
+            for i, ln in enumerate((80, 50)):
+                mid, did = replay.uuid_str(0xabc0 + i), replay.uuid_str(0xdef0 + i)
+                rws['Message'].append({'slot': i, 'id': mid, 'topic_id': tid, 'payload': replay.payload_for(i, ln), 'attributes': {}, 'order_key': None,
+                                       'published_at': str(base - (10 - i) * 10**9)})
+                rws['Delivery'].append({'slot': i, 'id': did, 'message_id': mid, 'subscription_id': sid, 'published_at': str(base - (10 - i) * 10**9),
+                                        'attempt_at': str(base - (10 - i) * 10**9), 'last_attempted_at': None, 'attempts': 0, 'completed_at': None,
+                                        'expires_at': str(base + 7200 * 10**9), 'not_before_id': None})
+            scn = {'base_now': str(base), 'rows': rws,
+                   'ops': [{'op': 'stream', 'subscription_id': sid, 'flow': {'max_messages': 10, 'max_bytes': 100}, 'duration_ms': 4000,
+                            'requests': [{'ack': [rws['Delivery'][0]['id']], 'after_sent': 1}]}]}
+            out = replay.run_scenarios([scn])[0]
+            path = replay.save_scenario('C11', 'stream-ack-frees-bytes', scn, desc)
+            if 'error' in out:
+                raise RuntimeError(out['error'][-400:])
+            r = out['results'][0]
+            sent = [x['id'] for x in (r.get('sent') or [])]
+            if rws['Delivery'][0]['id'] not in sent or r.get('requests_delivered') != 1:
+                return False, path
+            return (rws['Delivery'][1]['id'] not in sent), path
+        ob.verify(ex, 'fetch-returns-instead-of-waiting-when-candidates-are-due', Implies(due, not parked), dsc, replay=rp)
+    chk.run('fetch:returns-at-once-when-candidates-are-due', prog, harness, bounds={'candidates': '1..2 due deliveries', 'limits': 'symbolic, strict or not'},
+            setup=world.setup, max_paths=50000)
 
 
 def flow_control_range(chk, prog):
@@ -426,6 +497,7 @@ if __name__ == '__main__':
     chk.repo_hash = prog.repo_hash
     flow_control_range(chk, prog)
     budget_kernel(chk, prog)
+    fetch_never_parks_on_candidates(chk, prog)
     sender_step(chk, prog)
     reader_wakes(chk, prog)
     reader_applies_every_ack(chk, prog)
